@@ -146,12 +146,19 @@ class Expect:
             return self.recvals(rid)
         return exprs.evaluate(src, self.env)
 
-    def region_on(self, region, keep_dd=False):
-        """Interpolating region: returns text, or None if the attribute is to be dropped."""
+    def region_on(self, region, keep_dd=False, alt_implicit=False):
+        """Interpolating region: returns text, or None if the attribute is to be dropped.
+        alt_implicit: alternate model of a known mechanism - an attribute configured for implicit translation whose
+        expressions are all plain names is rendered through the translation function with a mapping; the message id is
+        built from the un-escaped text, so a placeholder directly preceded by a literal '$' reads as escaped there and
+        stays '${name}'."""
         out = []
         parts = region.parts
         i = 0
         sole_none = False
+        live = [q for j, q in enumerate(parts) if q[0] == 'expr' and not (
+            j and parts[j - 1][0] == 'lit' and exprs.trailing_dollars(parts[j - 1][1]) % 2 == 1)]
+        names_only = alt_implicit and len(parts) >= 2 and live and all(re.fullmatch(r'[A-Za-z_][A-Za-z0-9_]*', q[2]) for q in live)
         while i < len(parts):
             p = parts[i]
             if p[0] == 'lit':
@@ -167,7 +174,12 @@ class Expect:
                 v = self.value(p[1], p[3])
                 if v is None and len(parts) == 1:
                     sole_none = True
-                out.append(value_text(region.ctx, v))
+                if names_only and out and ''.join(out).endswith('$'):
+                    out.append('${' + p[2] + '}')
+                elif names_only and v is None:
+                    out.append('None')          # (second effect of the same route: the mapping value of None is 'None')
+                else:
+                    out.append(value_text(region.ctx, v))
             i += 1
         if sole_none and region.ctx in ('dq', 'sq'):
             return None
@@ -308,7 +320,7 @@ def expect(node, ex, on, comments_on, out, altmode=False, stats=None):
     for i, a in enumerate(node.attrs):
         q = '"' if a.ctx == 'dq' else "'"
         keep = altmode and '${' not in ser_region(a)
-        v = ex.region_on(a, keep_dd=keep)     # attributes are interpolated whatever the switch says
+        v = ex.region_on(a, keep_dd=keep, alt_implicit=(altmode == 'implicit'))     # attributes are interpolated whatever the switch says
         if v is not None:
             out.append(' %s=%s%s%s' % ('ab'[i], q, v, q))
     out.append('>')
@@ -345,9 +357,12 @@ def recval(i):
     return ['v%d' % i, 'x<%d>&"\'' % i, i, None, 'é%d' % i][i % 5] if i % 7 else 'v%d' % i
 
 
-def render_real(src, env, comments_on, data_attributes=False):
+def render_real(src, env, comments_on, data_attributes=False, implicit_attrs=False):
     from chameleon import PageTemplate
     cfg = {'enable_data_attributes': True} if data_attributes else {}
+    if implicit_attrs:
+        # the attributes are offered to the (library's own, i.e. identity) translation function: same rendering
+        cfg['implicit_i18n_attributes'] = {'a', 'b'}
     log = []
 
     def f(i):
@@ -372,6 +387,9 @@ def one_case(ctx, rng, env, stats):
     data_spelling = rng.random() < .2
     if data_spelling:
         ctx.mon('switch-written-as-data-attribute')
+    implicit_attrs = rng.random() < .25
+    if implicit_attrs:
+        ctx.mon('attributes-configured-for-implicit-translation')
     src = ser(root, data_spelling)
     ex = Expect(env, recval)
     out = []
@@ -380,7 +398,7 @@ def one_case(ctx, rng, env, stats):
     except Exception:
         return False       # an expression raises in plain Python: not a case
     exp = ''.join(out)
-    got, log = render_real(src, env, comments_on, data_spelling)
+    got, log = render_real(src, env, comments_on, data_spelling, implicit_attrs)
     ctx.mon('compared')
     ctx.mon('log-compared')
     ctx.case(key=(shape(root), comments_on), nontrivial=nontrivial(root),
@@ -395,10 +413,16 @@ def one_case(ctx, rng, env, stats):
         expect(root, ex2, True, comments_on, out2, altmode=True)
         if ''.join(out2) == got and ex2.log == log and ''.join(out2) != exp:
             key = 'dollar-dollar-kept-where-nothing-interpolated'
+        elif implicit_attrs:
+            ex3 = Expect(env, recval)
+            out3 = []
+            expect(root, ex3, True, comments_on, out3, altmode='implicit')
+            if ''.join(out3) == got and ex3.log == log and ''.join(out3) != exp:
+                key = 'plain-name-placeholders-mishandled-under-implicit-attribute-translation'
         ctx.violation(key, 'template %r (comment interpolation %s)\n   rendered %r log %r\n   expected %r log %r' % (
             src, comments_on, got, log, exp, ex.log),
             {'kind': 'doc', 'src': src, 'comments_on': comments_on, 'expected': exp, 'expected_log': ex.log,
-             'data_attributes': data_spelling})
+             'data_attributes': data_spelling, 'implicit_attrs': implicit_attrs})
     return True
 
 
@@ -418,7 +442,7 @@ def run(ctx):
 
 def replay(data):
     env = exprs.make_env()
-    got, log = render_real(data['src'], env, data['comments_on'], data.get('data_attributes', False))
+    got, log = render_real(data['src'], env, data['comments_on'], data.get('data_attributes', False), data.get('implicit_attrs', False))
     text = 'source   %r\nexpected %r log %r\nrendered %r log %r' % (
         data['src'], data['expected'], data['expected_log'], got, log)
     return got != data['expected'] or log != data['expected_log'], text
